@@ -184,3 +184,399 @@ Proof.
   repeat match goal with |- context [cat_in ?u ?l] => lazymatch l with ja_roots => fail | _ => change l with ja_roots end end.
   destruct (cat_in x ja_roots); [|reflexivity]. destruct (cat_in y ja_roots); reflexivity.
 Qed.
+
+(* ================= what the common form guarantees ================= *)
+Section Comb.
+Variables (xe ye : env) (b : text) (bx by_ : cat) (guard modf : bool) (other : cat) (build : mapping_t -> cat) (s1 s2 : text).
+Hypothesis Hside : side_ok xe ye b = true.
+Hypothesis Hbx : dget text_eqb b xe = Some bx.
+Hypothesis Hby : dget text_eqb b ye = Some by_.
+Hypothesis Hg : guard = true -> cat_xor by_ bx = true.
+
+Lemma comb_sound r : ternary bx -> ternary by_ -> comb_result xe ye guard modf other build s1 s2 = Ok_ (Some r) ->
+  guard = true /\ matches bx by_ /\ op_string r = s1 /\ op_symbol r = s2 /\ head_is_left r = false /\
+  exists m, (forall c, inst (pairs bx by_) c (subst m c)) /\ rcat r = if modf then other else build m.
+Proof.
+  intros Tx Ty H. unfold comb_result in H. destruct guard; [|discriminate].
+  assert (Hsk : skeleton bx = skeleton by_) by (symmetry; apply xor_skeleton; now apply Hg).
+  destruct (core xe ye) as [[m|]|e] eqn:Ec; simpl in H; try discriminate.
+  inversion H; subst r; simpl.
+  destruct (core_sound xe ye b bx by_ Hside Hbx Hby Hsk m Tx Ty Ec) as [M I].
+  split; [reflexivity|]. split; [exact M|]. split; [reflexivity|]. split; [reflexivity|]. split; [reflexivity|]. exists m. split; [exact I | reflexivity].
+Qed.
+Lemma comb_total : ternary bx -> ternary by_ -> exists o, comb_result xe ye guard modf other build s1 s2 = Ok_ o.
+Proof.
+  intros Tx Ty. unfold comb_result. destruct guard; [|eauto].
+  assert (Hsk : skeleton bx = skeleton by_) by (symmetry; apply xor_skeleton; now apply Hg).
+  destruct (core_total xe ye b bx by_ Hside Hbx Hby Hsk Tx Ty) as [[m|] ->]; simpl; eauto.
+Qed.
+End Comb.
+
+Lemma comb_complete xe ye b bx guard modf other build s1 s2 :
+  side_ok xe ye b = true -> dget text_eqb b xe = Some bx -> dget text_eqb b ye = Some bx -> guard = true ->
+  exists m, (forall c, subst m c = c) /\
+    comb_result xe ye guard modf other build s1 s2 =
+    Ok_ (Some {| rcat := if modf then other else build m; op_string := s1; op_symbol := s2; head_is_left := false |}).
+Proof.
+  intros Hs Hx Hy ->. destruct (core_ident xe ye b bx Hs Hx Hy) as (m & Hc & Hid).
+  exists m. split; [exact Hid|]. unfold comb_result. now rewrite Hc.
+Qed.
+
+Lemma result_is_of a b other res (schema : cat -> Prop) v :
+  res = (if cat_eqb a b then other else v) -> schema v -> result_is a b other res schema.
+Proof.
+  intros -> Hs. split; intros H.
+  - now rewrite (proj2 (cat_eqb_eq a b) H).
+  - destruct (cat_eqb a b) eqn:E; [apply cat_eqb_eq in E; contradiction | exact Hs].
+Qed.
+
+Ltac use_comb H vb vbx vby :=
+  eapply comb_sound with (b := vb) (bx := vbx) (by_ := vby) in H;
+  [ | reflexivity | reflexivity | reflexivity | intros G_; repeat (apply andb_true_iff in G_ as [G_ ?]); assumption | assumption | assumption ].
+
+(* ================= soundness, combinator by combinator ================= *)
+Lemma fa_sound x y r : ternary x -> ternary y -> forward_application x y = Ok_ (Some r) -> Justified_ja r x y.
+Proof.
+  intros Tx Ty H. rewrite fa_eval in H. destruct x as [|a s b]; [discriminate|]. destruct Tx as [Ta Tb].
+  use_comb H [98] b y. destruct H as (G & M & _ & S2 & Hd & m & Hm & Hr). apply andb_true_iff in G as [Gs _].
+  eapply J_fa; [reflexivity | now apply slash_fwd | exact M | exact S2 | exact Hd |].
+  eapply result_is_of; [exact Hr | apply Hm].
+Qed.
+Lemma ba_sound x y r : ternary x -> ternary y -> backward_application x y = Ok_ (Some r) -> Justified_ja r x y.
+Proof.
+  intros Tx Ty H. rewrite ba_eval in H. destruct y as [|a s b']; [discriminate|]. destruct Ty as [Ta Tb].
+  use_comb H [98] x b'. destruct H as (G & M & _ & S2 & Hd & m & Hm & Hr). apply andb_true_iff in G as [Gs _].
+  eapply J_ba; [reflexivity | now apply slash_bwd | exact M | exact S2 | exact Hd |].
+  eapply result_is_of; [exact Hr | apply Hm].
+Qed.
+Lemma fc_sound x y r : ternary x -> ternary y -> forward_composition x y = Ok_ (Some r) -> Justified_ja r x y.
+Proof.
+  intros Tx Ty H. rewrite fc_eval in H. destruct x as [|a s b]; [discriminate|]. destruct y as [|b' s' c]; [discriminate|].
+  destruct Tx as [Ta Tb]. destruct Ty as [Tb' Tc].
+  use_comb H [98] b b'. destruct H as (G & M & _ & S2 & Hd & m & Hm & Hr).
+  apply andb_true_iff in G as [G _]. apply andb_true_iff in G as [G1 G2].
+  eapply J_fc; [reflexivity | reflexivity | now apply slash_fwd | now apply slash_fwd | exact M | exact S2 | exact Hd |].
+  eapply result_is_of; [exact Hr |]. exists (subst m a), (subst m c). repeat split; apply Hm.
+Qed.
+Lemma fx1_sound x y r : ternary x -> ternary y -> generalized_forward_composition1 x y = Ok_ (Some r) -> Justified_ja r x y.
+Proof.
+  intros Tx Ty H. rewrite fx1_eval in H. destruct x as [|a s b]; [discriminate|]. destruct y as [|b' s' c]; [discriminate|].
+  destruct Tx as [Ta Tb]. destruct Ty as [Tb' Tc].
+  use_comb H [98] b b'. destruct H as (G & M & _ & S2 & Hd & m & Hm & Hr).
+  apply andb_true_iff in G as [G _]. apply andb_true_iff in G as [G1 G2].
+  eapply J_fx1; [reflexivity | reflexivity | now apply slash_fwd | now apply slash_bwd | exact M | exact S2 | exact Hd |].
+  eapply result_is_of; [exact Hr |]. exists (subst m a), (subst m c). repeat split; apply Hm.
+Qed.
+
+Ltac outer_tac Hm := repeat (constructor; [split; [reflexivity | apply Hm]|]); constructor.
+
+Lemma bx1_sound x y r : ternary x -> ternary y -> generalized_backward_composition1 x y = Ok_ (Some r) -> Justified_ja r x y.
+Proof.
+  intros Tx Ty H. rewrite bx1_eval in H. destruct x as [|b s1 c]; [discriminate|]. destruct y as [|a s b']; [discriminate|].
+  destruct Tx as [Tb Tc]. destruct Ty as [Ta Tb'].
+  use_comb H [98] b b'. destruct H as (G & M & _ & S2 & Hd & m & Hm & Hr).
+  apply andb_true_iff in G as [G _]. apply andb_true_iff in G as [G1 G2].
+  eapply J_bx with (o := []); [reflexivity | reflexivity | now apply slash_bwd | now apply slash_bwd | exact M | simpl; lia | exact S2 | exact Hd |].
+  eapply result_is_of; [exact Hr |]. exists (subst m a), (subst m c), []. split; [apply Hm|]. split; [apply Hm|]. split; [outer_tac Hm | reflexivity].
+Qed.
+Lemma bx2_sound x y r : ternary x -> ternary y -> generalized_backward_composition2 x y = Ok_ (Some r) -> Justified_ja r x y.
+Proof.
+  intros Tx Ty H. rewrite bx2_eval in H. destruct x as [|[|b s1 c] s2 d]; try discriminate. destruct y as [|a s b']; [discriminate|].
+  destruct Tx as [[Tb Tc] Td]. destruct Ty as [Ta Tb'].
+  use_comb H [98] b b'. destruct H as (G & M & _ & S2 & Hd & m & Hm & Hr).
+  apply andb_true_iff in G as [G _]. apply andb_true_iff in G as [G1 G2].
+  eapply J_bx with (o := [(s2, d)]); [reflexivity | reflexivity | now apply slash_bwd | now apply slash_bwd | exact M | simpl; lia | exact S2 | exact Hd |].
+  eapply result_is_of; [exact Hr |]. exists (subst m a), (subst m c), [(s2, subst m d)].
+  split; [apply Hm|]. split; [apply Hm|]. split; [outer_tac Hm | reflexivity].
+Qed.
+Lemma bx3_sound x y r : ternary x -> ternary y -> generalized_backward_composition3 x y = Ok_ (Some r) -> Justified_ja r x y.
+Proof.
+  intros Tx Ty H. rewrite bx3_eval in H. destruct x as [|[|[|b s1 c] s2 d] s3 e]; try discriminate. destruct y as [|a s b']; [discriminate|].
+  destruct Tx as [[[Tb Tc] Td] Te]. destruct Ty as [Ta Tb'].
+  use_comb H [98] b b'. destruct H as (G & M & _ & S2 & Hd & m & Hm & Hr).
+  apply andb_true_iff in G as [G _]. apply andb_true_iff in G as [G1 G2].
+  eapply J_bx with (o := [(s2, d); (s3, e)]); [reflexivity | reflexivity | now apply slash_bwd | now apply slash_bwd | exact M | simpl; lia | exact S2 | exact Hd |].
+  eapply result_is_of; [exact Hr |]. exists (subst m a), (subst m c), [(s2, subst m d); (s3, subst m e)].
+  split; [apply Hm|]. split; [apply Hm|]. split; [outer_tac Hm | reflexivity].
+Qed.
+Lemma bx4_sound x y r : ternary x -> ternary y -> generalized_backward_composition4 x y = Ok_ (Some r) -> Justified_ja r x y.
+Proof.
+  intros Tx Ty H. rewrite bx4_eval in H. destruct x as [|[|[|[|b s1 c] s2 d] s3 e] s4 f]; try discriminate. destruct y as [|a s b']; [discriminate|].
+  destruct Tx as [[[[Tb Tc] Td] Te] Tf]. destruct Ty as [Ta Tb'].
+  use_comb H [98] b b'. destruct H as (G & M & _ & S2 & Hd & m & Hm & Hr).
+  apply andb_true_iff in G as [G _]. apply andb_true_iff in G as [G1 G2].
+  eapply J_bx with (o := [(s2, d); (s3, e); (s4, f)]); [reflexivity | reflexivity | now apply slash_bwd | now apply slash_bwd | exact M | simpl; lia | exact S2 | exact Hd |].
+  eapply result_is_of; [exact Hr |]. exists (subst m a), (subst m c), [(s2, subst m d); (s3, subst m e); (s4, subst m f)].
+  split; [apply Hm|]. split; [apply Hm|]. split; [outer_tac Hm | reflexivity].
+Qed.
+Lemma fx2_sound x y r : ternary x -> ternary y -> generalized_forward_composition2 x y = Ok_ (Some r) -> Justified_ja r x y.
+Proof.
+  intros Tx Ty H. rewrite fx2_eval in H. destruct x as [|a s b]; [discriminate|]. destruct y as [|[|b' s' c] s2 d]; try discriminate.
+  destruct Tx as [Ta Tb]. destruct Ty as [[Tb' Tc] Td].
+  use_comb H [98] b b'. destruct H as (G & M & _ & S2 & Hd & m & Hm & Hr).
+  apply andb_true_iff in G as [G _]. apply andb_true_iff in G as [G1 G2].
+  eapply J_fxn with (o := [(s2, d)]); [reflexivity | reflexivity | now apply slash_fwd | now apply slash_bwd | exact M | simpl; lia | exact S2 | exact Hd |].
+  eapply result_is_of; [exact Hr |]. exists (subst m a), (subst m c), [(s2, subst m d)].
+  split; [apply Hm|]. split; [apply Hm|]. split; [outer_tac Hm | reflexivity].
+Qed.
+Lemma fx3_sound x y r : ternary x -> ternary y -> generalized_forward_composition3 x y = Ok_ (Some r) -> Justified_ja r x y.
+Proof.
+  intros Tx Ty H. rewrite fx3_eval in H. destruct x as [|a s b]; [discriminate|]. destruct y as [|[|[|b' s' c] s2 d] s3 e]; try discriminate.
+  destruct Tx as [Ta Tb]. destruct Ty as [[[Tb' Tc] Td] Te].
+  use_comb H [98] b b'. destruct H as (G & M & _ & S2 & Hd & m & Hm & Hr).
+  apply andb_true_iff in G as [G _]. apply andb_true_iff in G as [G1 G2].
+  eapply J_fxn with (o := [(s2, d); (s3, e)]); [reflexivity | reflexivity | now apply slash_fwd | now apply slash_bwd | exact M | simpl; lia | exact S2 | exact Hd |].
+  eapply result_is_of; [exact Hr |]. exists (subst m a), (subst m c), [(s2, subst m d); (s3, subst m e)].
+  split; [apply Hm|]. split; [apply Hm|]. split; [outer_tac Hm | reflexivity].
+Qed.
+Lemma cat_in_In c l : cat_in c l = true <-> In c l.
+Proof.
+  unfold cat_in. rewrite existsb_exists. split.
+  - intros [z [Hin Hz]]. apply cat_eqb_eq in Hz. now subst.
+  - intros H. exists c. split; [assumption | apply cat_eqb_refl].
+Qed.
+Lemma conjoin_sound x y r : conjoin x y = Ok_ (Some r) -> Justified_ja r x y.
+Proof.
+  rewrite conjoin_eval. intros H. destruct (cat_in x ja_roots && cat_in y ja_roots) eqn:E; inversion H; subst r.
+  apply andb_true_iff in E as [Ex Ey]. apply J_sseq; try reflexivity; now apply cat_in_In.
+Qed.
+
+(* ================= absence of errors, combinator by combinator ================= *)
+Definition total_on (c : combinator) : Prop := forall x y, ternary x -> ternary y -> exists o, c x y = Ok_ o.
+
+Ltac use_total vb vbx vby :=
+  eapply comb_total with (b := vb) (bx := vbx) (by_ := vby);
+  [ reflexivity | reflexivity | reflexivity | intros G_; repeat (apply andb_true_iff in G_ as [G_ ?]); assumption | simpl in *; tauto | simpl in *; tauto ].
+
+Lemma fa_total : total_on forward_application.
+Proof. intros x y Tx Ty. rewrite fa_eval. destruct x as [|a s b]; [eauto|]. use_total [98] b y. Qed.
+Lemma ba_total : total_on backward_application.
+Proof. intros x y Tx Ty. rewrite ba_eval. destruct y as [|a s b']; [eauto|]. use_total [98] x b'. Qed.
+Lemma fc_total : total_on forward_composition.
+Proof. intros x y Tx Ty. rewrite fc_eval. destruct x as [|a s b]; [eauto|]. destruct y as [|b' s' c]; [eauto|]. use_total [98] b b'. Qed.
+Lemma bx1_total : total_on generalized_backward_composition1.
+Proof. intros x y Tx Ty. rewrite bx1_eval. destruct x as [|b s1 c]; [eauto|]. destruct y as [|a s b']; [eauto|]. use_total [98] b b'. Qed.
+Lemma bx2_total : total_on generalized_backward_composition2.
+Proof. intros x y Tx Ty. rewrite bx2_eval. destruct x as [|[|b s1 c] s2 d]; eauto. destruct y as [|a s b']; [eauto|]. use_total [98] b b'. Qed.
+Lemma bx3_total : total_on generalized_backward_composition3.
+Proof. intros x y Tx Ty. rewrite bx3_eval. destruct x as [|[|[|b s1 c] s2 d] s3 e]; eauto. destruct y as [|a s b']; [eauto|]. use_total [98] b b'. Qed.
+Lemma bx4_total : total_on generalized_backward_composition4.
+Proof. intros x y Tx Ty. rewrite bx4_eval. destruct x as [|[|[|[|b s1 c] s2 d] s3 e] s4 f]; eauto. destruct y as [|a s b']; [eauto|]. use_total [98] b b'. Qed.
+Lemma fx1_total : total_on generalized_forward_composition1.
+Proof. intros x y Tx Ty. rewrite fx1_eval. destruct x as [|a s b]; [eauto|]. destruct y as [|b' s' c]; [eauto|]. use_total [98] b b'. Qed.
+Lemma fx2_total : total_on generalized_forward_composition2.
+Proof. intros x y Tx Ty. rewrite fx2_eval. destruct x as [|a s b]; [eauto|]. destruct y as [|[|b' s' c] s2 d]; eauto. use_total [98] b b'. Qed.
+Lemma fx3_total : total_on generalized_forward_composition3.
+Proof. intros x y Tx Ty. rewrite fx3_eval. destruct x as [|a s b]; [eauto|]. destruct y as [|[|[|b' s' c] s2 d] s3 e]; eauto. use_total [98] b b'. Qed.
+Lemma conjoin_total : total_on conjoin.
+Proof. intros x y _ _. rewrite conjoin_eval. eauto. Qed.
+
+(* ================= the combinator loop ================= *)
+Lemma collect_In cs x y : forall rs r, collect cs x y = Ok_ rs -> In r rs -> exists c, In c cs /\ c x y = Ok_ (Some r).
+Proof.
+  induction cs as [|c cs IH]; intros rs r H Hin; simpl in H.
+  - inversion H; subst. destruct Hin.
+  - destruct (c x y) as [o|e] eqn:Ec; simpl in H; [|discriminate].
+    destruct (collect cs x y) as [rest|e] eqn:Er; simpl in H; [|discriminate]. inversion H; subst rs.
+    destruct o as [v|].
+    + destruct Hin as [<-|Hin]; [exists c; split; [now left | assumption]|].
+      destruct (IH _ _ eq_refl Hin) as (c' & Hc' & E). exists c'. split; [now right | assumption].
+    + destruct (IH _ _ eq_refl Hin) as (c' & Hc' & E). exists c'. split; [now right | assumption].
+Qed.
+Lemma collect_has cs x y : forall rs c r, collect cs x y = Ok_ rs -> In c cs -> c x y = Ok_ (Some r) -> In r rs.
+Proof.
+  induction cs as [|c0 cs IH]; intros rs c r H Hin Hc; simpl in H; [destruct Hin|].
+  destruct (c0 x y) as [o|e] eqn:Ec; simpl in H; [|discriminate].
+  destruct (collect cs x y) as [rest|e] eqn:Er; simpl in H; [|discriminate]. inversion H; subst rs.
+  destruct Hin as [->|Hin].
+  - rewrite Hc in Ec. inversion Ec; subst o. now left.
+  - assert (In r rest) by (eapply IH; eauto). destruct o; [now right | assumption].
+Qed.
+Lemma collect_total cs x y : (forall c, In c cs -> exists o, c x y = Ok_ o) -> exists rs, collect cs x y = Ok_ rs.
+Proof.
+  induction cs as [|c cs IH]; intros H; simpl; [eauto|].
+  destruct (H c (or_introl eq_refl)) as [o ->]. destruct IH as [rs ->]; [intros c' Hc'; apply H; now right|]. simpl. eauto.
+Qed.
+
+Lemma clear_features_nil c : clear_features [] c = c.
+Proof. induction c as [b f | l IHl s r IHr]; simpl; [reflexivity | now rewrite IHl, IHr]. Qed.
+Lemma apply_binary_rules_None x y : apply_binary_rules x y None = collect combinators x y.
+Proof. unfold apply_binary_rules, apply_binary, key_clear. now rewrite !clear_features_nil. Qed.
+
+Lemma combinators_cases (P : combinator -> Prop) :
+  P forward_application -> P backward_application -> P forward_composition ->
+  P generalized_backward_composition1 -> P generalized_backward_composition2 -> P generalized_backward_composition3 -> P generalized_backward_composition4 ->
+  P generalized_forward_composition1 -> P generalized_forward_composition2 -> P generalized_forward_composition3 -> P conjoin ->
+  forall c, In c combinators -> P c.
+Proof.
+  intros. unfold combinators in *. simpl in *.
+  repeat match goal with H : _ \/ _ |- _ => destruct H as [<-|H]; [assumption|] end. contradiction.
+Qed.
+
+Theorem ja_sound x y rs r : ternary x -> ternary y -> apply_binary_rules x y None = Ok_ rs -> In r rs -> Justified_ja r x y.
+Proof.
+  intros Tx Ty H Hin. rewrite apply_binary_rules_None in H. destruct (collect_In _ _ _ _ _ H Hin) as (c & Hc & E).
+  revert c Hc E. apply (combinators_cases (fun c => c x y = Ok_ (Some r) -> Justified_ja r x y)).
+  - now apply fa_sound. - now apply ba_sound. - now apply fc_sound.
+  - now apply bx1_sound. - now apply bx2_sound. - now apply bx3_sound. - now apply bx4_sound.
+  - now apply fx1_sound. - now apply fx2_sound. - now apply fx3_sound. - apply conjoin_sound.
+Qed.
+Theorem ja_binary_total_None x y : ternary x -> ternary y -> exists rs, apply_binary_rules x y None = Ok_ rs.
+Proof.
+  intros Tx Ty. rewrite apply_binary_rules_None. apply collect_total. intros c Hc. revert c Hc.
+  apply (combinators_cases (fun c => exists o, c x y = Ok_ o)).
+  - now apply fa_total. - now apply ba_total. - now apply fc_total.
+  - now apply bx1_total. - now apply bx2_total. - now apply bx3_total. - now apply bx4_total.
+  - now apply fx1_total. - now apply fx2_total. - now apply fx3_total. - now apply conjoin_total.
+Qed.
+
+(* ================= consequences of a justification ================= *)
+Lemma justified_head r x y : Justified_ja r x y -> head_is_left r = false.
+Proof. intros J. destruct J; assumption. Qed.
+Lemma justified_symbol r x y : Justified_ja r x y ->
+  In (op_symbol r) [sym_fa; sym_ba; sym_fc; sym_bx 1; sym_bx 2; sym_bx 3; sym_bx 4; sym_fx 1; sym_fx 2; sym_fx 3; sym_sseq].
+Proof.
+  intros J. destruct J as [a s b _ _ _ -> | a s b _ _ _ -> | a s b b' s' c _ _ _ _ _ -> | b s c o a s' b' _ _ _ _ _ Hl -> | a s b b' s' c _ _ _ _ _ ->
+                          | a s b b' s' c o _ _ _ _ _ Hl -> | _ _ ->]; simpl; try tauto.
+  - destruct o as [|? [|? [|? [|? ?]]]]; simpl in *; try lia; tauto.
+  - destruct o as [|? [|? [|? ?]]]; simpl in *; try lia; tauto.
+Qed.
+
+Lemma inst_feats P c c' : inst P c c' -> forall f, In f (feats c') -> In f (feats c) \/ exists g, In (f, g) P \/ In (g, f) P.
+Proof.
+  induction 1 as [b f | b f g V S HP | l s r l' r' Hl IHl Hr IHr]; intros h Hh.
+  - now left.
+  - unfold feats in Hh. simpl in Hh. destruct Hh as [<-|[]]. right. exists f. tauto.
+  - rewrite feats_app in *. apply in_app_or in Hh. destruct Hh as [Hh|Hh]; [destruct (IHl _ Hh) | destruct (IHr _ Hh)]; auto;
+      left; apply in_or_app; auto.
+Qed.
+Lemma pairs_in b b' f g : In (f, g) (pairs b b') -> In f (feats b) /\ In g (feats b').
+Proof. unfold pairs. intros H. split; [eapply in_combine_l | eapply in_combine_r]; eassumption. Qed.
+Lemma inst_from b b' c c' : inst (pairs b b') c c' -> forall f, In f (feats c') -> In f (feats c) \/ In f (feats b) \/ In f (feats b').
+Proof.
+  intros H f Hf. destruct (inst_feats _ _ _ H f Hf) as [H1|[g [H1|H1]]]; [now left | |]; apply pairs_in in H1; tauto.
+Qed.
+Lemma feats_wrap core o : forall f, In f (feats (wrap core o)) <-> In f (feats core) \/ exists sd, In sd o /\ In f (feats (snd sd)).
+Proof.
+  unfold wrap. revert core. induction o as [|[s d] o IH]; intros core f; simpl.
+  - split; [now left | intros [H|[sd [[] _]]]; assumption].
+  - rewrite IH. rewrite feats_app, in_app_iff. simpl. split.
+    + intros [[H|H]|[sd [H1 H2]]]; [now left | right; exists (s, d); auto | right; exists sd; auto].
+    + intros [H|[sd [[<-|H1] H2]]]; [left; now left | left; now right | right; exists sd; auto].
+Qed.
+Lemma inst_outer_from b b' o o' : inst_outer (pairs b b') o o' -> forall sd' f, In sd' o' -> In f (feats (snd sd')) ->
+  (exists sd, In sd o /\ In f (feats (snd sd))) \/ In f (feats b) \/ In f (feats b').
+Proof.
+  induction 1 as [|sd sd' o o' [_ Hi] Hr IH]; intros sd0 f Hin Hf; [destruct Hin|].
+  destruct Hin as [<-|Hin].
+  - destruct (inst_from _ _ _ _ Hi f Hf) as [H1|H1]; [left; exists sd; split; [now left | assumption] | now right].
+  - destruct (IH _ _ Hin Hf) as [[sd1 [H1 H2]]|H1]; [left; exists sd1; split; [now right | assumption] | now right].
+Qed.
+
+Theorem justified_feats r x y : Justified_ja r x y -> forall f, In f (feats (rcat r)) -> In f (feats x) \/ In f (feats y).
+Proof.
+  intros J f Hf.
+  destruct J as [a s b -> _ _ _ _ [R1 R2] | a s b -> _ _ _ _ [R1 R2] | a s b b' s' c -> -> _ _ _ _ _ [R1 R2]
+                | b s c o a s' b' -> -> _ _ _ _ _ _ [R1 R2] | a s b b' s' c -> -> _ _ _ _ _ [R1 R2]
+                | a s b b' s' c o -> -> _ _ _ _ _ _ [R1 R2] | _ _ _ _ R].
+  - destruct (cat_eq_dec a b) as [E|E]; [rewrite (R1 E) in Hf; now right|].
+    destruct (inst_from _ _ _ _ (R2 E) f Hf) as [H|[H|H]]; rewrite ?feats_app, ?in_app_iff; tauto.
+  - destruct (cat_eq_dec a b) as [E|E]; [rewrite (R1 E) in Hf; now left|].
+    destruct (inst_from _ _ _ _ (R2 E) f Hf) as [H|[H|H]]; rewrite ?feats_app, ?in_app_iff; tauto.
+  - destruct (cat_eq_dec a b) as [E|E]; [rewrite (R1 E) in Hf; now right|].
+    destruct (R2 E) as (a' & c' & Ia & Ic & Er). rewrite Er, feats_app, in_app_iff in Hf.
+    destruct Hf as [Hf|Hf]; [destruct (inst_from _ _ _ _ Ia f Hf) as [H|[H|H]] | destruct (inst_from _ _ _ _ Ic f Hf) as [H|[H|H]]];
+      rewrite ?feats_app, ?in_app_iff; tauto.
+  - destruct (cat_eq_dec a b') as [E|E]; [rewrite (R1 E) in Hf; now left|].
+    destruct (R2 E) as (a' & c' & o' & Ia & Ic & Io & Er). rewrite Er in Hf. apply feats_wrap in Hf. rewrite feats_wrap. rewrite !feats_app, !in_app_iff in *.
+    destruct Hf as [[Hf|Hf]|[sd' [H1 H2]]].
+    + destruct (inst_from _ _ _ _ Ia f Hf) as [H|[H|H]]; tauto.
+    + destruct (inst_from _ _ _ _ Ic f Hf) as [H|[H|H]]; tauto.
+    + destruct (inst_outer_from _ _ _ _ Io _ _ H1 H2) as [H|[H|H]]; tauto.
+  - destruct (cat_eq_dec a b) as [E|E]; [rewrite (R1 E) in Hf; now right|].
+    destruct (R2 E) as (a' & c' & Ia & Ic & Er). rewrite Er, feats_app, in_app_iff in Hf.
+    destruct Hf as [Hf|Hf]; [destruct (inst_from _ _ _ _ Ia f Hf) as [H|[H|H]] | destruct (inst_from _ _ _ _ Ic f Hf) as [H|[H|H]]];
+      rewrite ?feats_app, ?in_app_iff; tauto.
+  - destruct (cat_eq_dec a b) as [E|E]; [rewrite (R1 E) in Hf; now right|].
+    destruct (R2 E) as (a' & c' & o' & Ia & Ic & Io & Er). rewrite Er in Hf. apply feats_wrap in Hf. rewrite feats_wrap. rewrite !feats_app, !in_app_iff in *.
+    destruct Hf as [[Hf|Hf]|[sd' [H1 H2]]].
+    + destruct (inst_from _ _ _ _ Ia f Hf) as [H|[H|H]]; tauto.
+    + destruct (inst_from _ _ _ _ Ic f Hf) as [H|[H|H]]; tauto.
+    + destruct (inst_outer_from _ _ _ _ Io _ _ H1 H2) as [H|[H|H]]; tauto.
+  - rewrite R in Hf. now right.
+Qed.
+
+(* ================= completeness on identical parts ================= *)
+Definition returns (c : combinator) (x y : cat) (sym : text) (res : cat) : Prop :=
+  exists r, c x y = Ok_ (Some r) /\ op_symbol r = sym /\ rcat r = res /\ head_is_left r = false.
+
+Ltac use_complete vbx :=
+  match goal with |- context [comb_result ?xe ?ye ?g ?mf ?o ?bd ?s1 ?s2] =>
+    destruct (comb_complete xe ye [98] vbx g mf o bd s1 s2) as (m & Hid & Hc);
+    [ reflexivity | reflexivity | reflexivity
+    | rewrite !andb_true_iff; repeat split; try apply xor_refl; try (apply slash_fwd; assumption); try (apply slash_bwd; assumption)
+    | rewrite Hc; eexists; split; [reflexivity|]; simpl; rewrite ?Hid; auto ] end.
+
+Lemma fa_complete a s b : fwd s -> returns forward_application (Fun a s b) b sym_fa (if cat_eqb a b then b else a).
+Proof. intros Hs. unfold returns. rewrite fa_eval. use_complete b. Qed.
+Lemma ba_complete a s b : bwd s -> returns backward_application b (Fun a s b) sym_ba (if cat_eqb a b then b else a).
+Proof. intros Hs. unfold returns. rewrite ba_eval. use_complete b. Qed.
+Lemma fc_complete a s b s' c : fwd s -> fwd s' ->
+  returns forward_composition (Fun a s b) (Fun b s' c) sym_fc (if cat_eqb a b then Fun b s' c else Fun a t_fwd c).
+Proof. intros Hs Hs'. unfold returns. rewrite fc_eval. use_complete b. Qed.
+Lemma fx1_complete a s b s' c : fwd s -> bwd s' ->
+  returns generalized_forward_composition1 (Fun a s b) (Fun b s' c) (sym_fx 1) (if cat_eqb a b then Fun b s' c else Fun a t_fwd c).
+Proof. intros Hs Hs'. unfold returns. rewrite fx1_eval. use_complete b. Qed.
+Lemma fx2_complete a s b s' c s2 d : fwd s -> bwd s' ->
+  returns generalized_forward_composition2 (Fun a s b) (Fun (Fun b s' c) s2 d) (sym_fx 2)
+          (if cat_eqb a b then Fun (Fun b s' c) s2 d else Fun (Fun a t_bwd c) s2 d).
+Proof. intros Hs Hs'. unfold returns. rewrite fx2_eval. use_complete b. Qed.
+Lemma fx3_complete a s b s' c s2 d s3 e : fwd s -> bwd s' ->
+  returns generalized_forward_composition3 (Fun a s b) (Fun (Fun (Fun b s' c) s2 d) s3 e) (sym_fx 3)
+          (if cat_eqb a b then Fun (Fun (Fun b s' c) s2 d) s3 e else Fun (Fun (Fun a t_bwd c) s2 d) s3 e).
+Proof. intros Hs Hs'. unfold returns. rewrite fx3_eval. use_complete b. Qed.
+Lemma bx1_complete b s1 c a s : bwd s1 -> bwd s ->
+  returns generalized_backward_composition1 (Fun b s1 c) (Fun a s b) (sym_bx 1) (if cat_eqb a b then Fun b s1 c else Fun a t_bwd c).
+Proof. intros Hs Hs'. unfold returns. rewrite bx1_eval. use_complete b. Qed.
+Lemma bx2_complete b s1 c s2 d a s : bwd s1 -> bwd s ->
+  returns generalized_backward_composition2 (Fun (Fun b s1 c) s2 d) (Fun a s b) (sym_bx 2)
+          (if cat_eqb a b then Fun (Fun b s1 c) s2 d else Fun (Fun a t_bwd c) s2 d).
+Proof. intros Hs Hs'. unfold returns. rewrite bx2_eval. use_complete b. Qed.
+Lemma bx3_complete b s1 c s2 d s3 e a s : bwd s1 -> bwd s ->
+  returns generalized_backward_composition3 (Fun (Fun (Fun b s1 c) s2 d) s3 e) (Fun a s b) (sym_bx 3)
+          (if cat_eqb a b then Fun (Fun (Fun b s1 c) s2 d) s3 e else Fun (Fun (Fun a t_bwd c) s2 d) s3 e).
+Proof. intros Hs Hs'. unfold returns. rewrite bx3_eval. use_complete b. Qed.
+Lemma bx4_complete b s1 c s2 d s3 e s4 f a s : bwd s1 -> bwd s ->
+  returns generalized_backward_composition4 (Fun (Fun (Fun (Fun b s1 c) s2 d) s3 e) s4 f) (Fun a s b) (sym_bx 4)
+          (if cat_eqb a b then Fun (Fun (Fun (Fun b s1 c) s2 d) s3 e) s4 f else Fun (Fun (Fun (Fun a t_bwd c) s2 d) s3 e) s4 f).
+Proof. intros Hs Hs'. unfold returns. rewrite bx4_eval. use_complete b. Qed.
+Lemma conjoin_complete x y : In x ja_roots -> In y ja_roots -> returns conjoin x y sym_sseq y.
+Proof.
+  intros Hx Hy. unfold returns. rewrite conjoin_eval. apply cat_in_In in Hx, Hy. rewrite Hx, Hy. simpl.
+  eexists. split; [reflexivity|]. simpl. auto.
+Qed.
+
+Theorem ja_complete x y sym c : ternary x -> ternary y -> Expected_ja x y sym c ->
+  exists rs r, apply_binary_rules x y None = Ok_ rs /\ In r rs /\ op_symbol r = sym /\ rcat r = c /\ head_is_left r = false.
+Proof.
+  intros Tx Ty E. destruct (ja_binary_total_None x y Tx Ty) as [rs Hrs]. exists rs.
+  assert (K : forall c0, In c0 combinators -> returns c0 x y sym c -> exists r, apply_binary_rules x y None = Ok_ rs /\ In r rs /\ op_symbol r = sym /\ rcat r = c /\ head_is_left r = false).
+  { intros c0 Hc0 (r & Hr & H1 & H2 & H3). exists r. split; [assumption|]. split; [|auto].
+    rewrite apply_binary_rules_None in Hrs. eapply collect_has; eassumption. }
+  assert (M : forall c0, In c0 combinators -> In c0 combinators) by auto.
+  destruct E as [a s b -> -> Hs | a s b -> -> Hs | a s b s' c -> -> Hs Hs' | b s c o a s' -> -> Hs Hs' Hl
+                | a s b s' c -> -> Hs Hs' | a s b s' c o -> -> Hs Hs' Hl | Hx Hy].
+  - apply (K forward_application); [unfold combinators; simpl; tauto | now apply fa_complete].
+  - apply (K backward_application); [unfold combinators; simpl; tauto | now apply ba_complete].
+  - apply (K forward_composition); [unfold combinators; simpl; tauto | now apply fc_complete].
+  - destruct o as [|[s2 d] [|[s3 e] [|[s4 f] [|? ?]]]]; simpl in Hl; try lia.
+    + apply (K generalized_backward_composition1); [unfold combinators; simpl; tauto | now apply bx1_complete].
+    + apply (K generalized_backward_composition2); [unfold combinators; simpl; tauto | now apply bx2_complete].
+    + apply (K generalized_backward_composition3); [unfold combinators; simpl; tauto | now apply bx3_complete].
+    + apply (K generalized_backward_composition4); [unfold combinators; simpl; tauto | now apply bx4_complete].
+  - apply (K generalized_forward_composition1); [unfold combinators; simpl; tauto | now apply fx1_complete].
+  - destruct o as [|[s2 d] [|[s3 e] [|? ?]]]; simpl in Hl; try lia.
+    + apply (K generalized_forward_composition2); [unfold combinators; simpl; tauto | now apply fx2_complete].
+    + apply (K generalized_forward_composition3); [unfold combinators; simpl; tauto | now apply fx3_complete].
+  - apply (K conjoin); [unfold combinators; simpl; tauto | now apply conjoin_complete].
+Qed.
